@@ -115,7 +115,7 @@ Qed.
 (* ------------------------------------------------------------------ *)
 (** * first pass *)
 
-Definition pre_ok (pre : list seg) : Prop := pre = [] \/ exists pre' e, pre = pre' ++ [(EQUAL, e)].
+Definition pre_ok (pre : list seg) : Prop := pre = [] \/ exists (pre' : list seg) (e : str), pre = pre' ++ [(EQUAL, e)].
 
 Lemma merge_prefix_spec pre run cur post p cd ci td ti d' p' td' ti' :
   p = zlen pre + zlen run -> zlen run = cd + ci -> pre_ok pre ->
@@ -124,7 +124,7 @@ Lemma merge_prefix_spec pre run cur post p cd ci td ti d' p' td' ti' :
     td = c ++ td' /\ ti = c ++ ti' /\
     ((pre1 = pre /\ c = []) \/
      (c <> [] /\ ((pre = [] /\ pre1 = [(EQUAL, c)]) \/
-                  exists pre' e, pre = pre' ++ [(EQUAL, e)] /\ pre1 = pre' ++ [(EQUAL, e ++ c)]))).
+                  exists (pre' : list seg) (e : str), pre = pre' ++ [(EQUAL, e)] /\ pre1 = pre' ++ [(EQUAL, e ++ c)]))).
 Proof.
   intros Hp Hrl Hpre H. unfold merge_prefix in H.
   inv_bind H. apply commonPrefix_spec in E as (c & r1 & r2 & Hti & Htd & Hc & _).
@@ -144,21 +144,20 @@ Proof.
       replace (Z.to_nat (Z.min 0 (zlen (run ++ cur :: post)))) with O in H
         by (pose proof (zlen_nonneg (run ++ cur :: post)); lia).
       cbn [firstn skipn app] in H. ok_inv.
-      exists [(EQUAL, c)], c. repeat split; auto.
-      * rewrite zlen_sing. change (zlen (@nil seg)) with 0. lia.
-      * right. split; [assumption|]. left. split; reflexivity.
+      exists [(EQUAL, c)], c. repeat split; auto;
+        try (rewrite zlen_sing; change (zlen (@nil seg)) with 0; lia);
+        try (right; split; [assumption|]; left; split; reflexivity).
     + (* the run follows an equality, which absorbs the common prefix *)
       rewrite zlen_app, zlen_sing in Hp.
       pose proof (zlen_nonneg pre').
       destruct (p - cd - ci - 1 >=? 0) eqn:Ex; [|lia].
       rewrite <- app_assoc in H. cbn [app] in H.
-      rewrite (get0 pre' (EQUAL, e)) in H by lia. cbn [bind is_equal] in H.
-      rewrite (get0 pre' (EQUAL, e)) in H by lia. cbn [bind] in H.
+      rewrite !(get0 pre' (EQUAL, e)) in H by lia. cbn [bind is_equal] in H.
       rewrite (set0 pre' (EQUAL, e)) in H by lia. cbn [bind] in H. ok_inv.
-      exists (pre' ++ [(EQUAL, e ++ c)]), c. repeat split; auto.
-      * now rewrite <- app_assoc.
-      * rewrite zlen_app, zlen_sing. lia.
-      * right. split; [assumption|]. right. exists pre', e. split; reflexivity.
+      exists (pre' ++ [(EQUAL, e ++ c)]), c. repeat split; auto;
+        try (now rewrite <- app_assoc);
+        try (rewrite zlen_app, zlen_sing; lia);
+        try (right; split; [assumption|]; right; exists pre', e; split; reflexivity).
 Qed.
 
 Lemma merge_suffix_spec pre run o t post p td ti d' td' ti' :
@@ -169,8 +168,8 @@ Proof.
   intros Hp H. unfold merge_suffix in H.
   inv_bind H. apply commonSuffix_spec in E as (c & r1 & r2 & Hti & Htd & Hc & _).
   destruct (v =? 0) eqn:Ev; cbn [negb] in H.
-  - ok_inv. assert (c = []) by (apply zlen_0; lia). subst c. rewrite app_nil_r in *.
-    exists []. repeat split; auto.
+  - ok_inv. assert (c = []) by (apply zlen_0; lia). subst c. rewrite !app_nil_r in *.
+    exists []. repeat split; auto; rewrite ?app_nil_r; congruence.
   - assert (Hcn : c <> []). { intros ->. change (zlen (@nil N)) with 0 in Hc. lia. }
     rewrite (app_assoc pre run) in H.
     rewrite get0 in H by (rewrite zlen_app; lia). cbn [bind] in H.
@@ -226,7 +225,7 @@ Section Pass1.
       destruct (cd + ci >? 1) eqn:Ec.
       + (* a run of several edits: factor, rebuild *)
         inv_bind Hs. destruct v as [[[d1 p1] td1] ti1]. ok_inv.
-        assert (Hf : exists pre1 t1 c1 c2,
+        assert (Hf : exists pre1 c1 c2,
                    d1 = pre1 ++ run ++ (EQUAL, c2 ++ t) :: post /\ p1 = zlen pre1 + zlen run /\
                    td = c1 ++ td1 ++ c2 /\ ti = c1 ++ ti1 ++ c2 /\ pre_ok pre1 /\
                    (forall k, good_keep k -> proj k pre1 = proj k pre ++ c1) /\
@@ -236,7 +235,7 @@ Section Pass1.
             inv_bind E. destruct v as [[d3 td3] ti3]. ok_inv.
             apply merge_prefix_spec in E0 as (pre1 & c1 & -> & -> & -> & -> & Hc1); auto.
             apply merge_suffix_spec in E1 as (c2 & -> & -> & ->); auto.
-            exists pre1, t, c1, c2. repeat split; auto.
+            exists pre1, c1, c2. repeat split; auto.
             + destruct Hc1 as [[-> _]|[Hn [[_ ->]|(pre' & e & _ & ->)]]]; [assumption|right|right].
               * exists [], c1. reflexivity.
               * exists pre', (e ++ c1). reflexivity.
@@ -250,9 +249,9 @@ Section Pass1.
               * apply Forall_app in Hne as [Hne1 Hne2]. apply Forall_app. split; [assumption|].
                 repeat constructor. inversion Hne2 as [|? ? Hne3 _]; subst. unfold nonempty in *. cbn in *.
                 intros Hc. apply app_eq_nil in Hc as [Hc _]. contradiction.
-          - ok_inv. exists pre, t, [], []. cbn [app]. rewrite !app_nil_r. repeat split; auto.
+          - ok_inv. exists pre, [], []. cbn [app]. rewrite !app_nil_r. repeat split; auto.
             intros k Hk. now rewrite app_nil_r. }
-        destruct Hf as (pre1 & t1 & c1 & c2 & -> & -> & Htd & Hti & Hpre1 & Hpp & Hpn).
+        destruct Hf as (pre1 & c1 & c2 & -> & -> & Htd & Hti & Hpre1 & Hpp & Hpn).
         replace (zlen pre1 + zlen run - (cd + ci)) with (zlen pre1) by lia.
         rewrite slice_assign0 by lia.
         exists (pre1 ++ merge_new_ops td1 ti1 ++ [(EQUAL, c2 ++ t)]), [], post.
